@@ -11,6 +11,7 @@ package main
 import (
 	"fmt"
 	"os"
+	"runtime"
 	"runtime/pprof"
 	"sort"
 	"strconv"
@@ -63,7 +64,7 @@ func main() {
 			pprof.StopCPUProfile()
 			fh.Close()
 		} else {
-			f(c)
+			runGuarded(c, f)
 		}
 		os.Exit(c.finish())
 	case "replay":
@@ -120,3 +121,15 @@ func envInt(name string, def int64) int64 {
 }
 
 var startTime = time.Now()
+
+// runGuarded runs a check; a panic escaping it is reported as a violation (see parallel).
+func runGuarded(c *Ctx, f checkFunc) {
+	defer func() {
+		if r := recover(); r != nil {
+			buf := make([]byte, 6000)
+			n := runtime.Stack(buf, false)
+			c.Report("panic-in-check", 0, "", map[string]string{"panic": fmt.Sprint(r)}, []string{fmt.Sprintf("panic while exploring: %v", r), string(buf[:n])})
+		}
+	}()
+	f(c)
+}
